@@ -131,6 +131,7 @@ func (s *Streamer) parseEvents(ctx context.Context, events <-chan replication.Bi
 		next := pos
 		tran := newTransaction(now, next, int64(ev.Timestamp()), tranEvents)
 		if err = s.sendTransaction(tran); err != nil {
+			pos = now
 			return fmt.Errorf("sendTransaction error: %v", err)
 		}
 		tranEvents = nil
